@@ -8,7 +8,7 @@ import numpy as np
 
 from harness import numeric, par
 
-SCALES = [(1.0, 0.0), (1.0, 1073741824.0), (1.0, -2.0)]     # plain grid; the same grid far from the origin (translation invariance)
+SCALES = [(1.0, 0.0), (1.0, 1073741824.0), (1.0, -2.0), (2.0 ** -40, 0.0)]     # plain grid; far from the origin (translation invariance); tiny units (scale covariance, exact)
 
 
 def _close(got, exp):
@@ -184,7 +184,7 @@ def run(ctx):
         "every case is also replayed translated by -2 (coordinates on both sides of zero) and by 2^30 (coordinates stay exactly representable; distances, IoU and curvature "
         "are translation invariant), thorough adds a scaled/translated and a down-scaled copy"]
     if not ctx.quick:
-        SCALES = [(1.0, 0.0), (1.0, 1073741824.0), (1.0, -2.0), (1024.0, 1048576.0), (0.0009765625, 0.0), (1.0, -1073741824.0)]
+        SCALES = [(1.0, 0.0), (1.0, 1073741824.0), (1.0, -2.0), (1024.0, 1048576.0), (0.0009765625, 0.0), (1.0, -1073741824.0), (2.0 ** -40, 0.0)]
     cfg = "Gen_Geometry_quick" if ctx.quick else "Gen_Geometry_thorough"
     beh = ctx.gen("Gen_Geometry", cfg, workers=1)
     ctx.exhaustive = True
